@@ -177,6 +177,48 @@ def run_truncate_decision(P, rep, rule="R-TRUNC"):
                  "the truncation test compares the input with a value computed from the limit (limit - ellipsis) instead of the limit: inputs that fit are truncated")
     else:
         rep.ok(rule, "truncate decision", P.where(fn, st[3]), "input is returned unchanged unless longer than the limit itself")
+    # what is kept in front of the ellipsis is limit - ellipsis, floored at zero: every value that can reach `take(..)` is a
+    # difference or the constant 0 — never the limit itself (then limit + ellipsis characters come out)
+    from mirutil import defs_of
+    takes = [t for bi, t in P.calls(fn) if t.get("f") and t["f"]["id"].rsplit("::", 1)[1] == "take" and len(t["args"]) > 1]
+    for k, t in enumerate(takes):
+        leaves, work, seen = [], [op_local(t["args"][1])], set()
+        while work:
+            ol = work.pop()
+            if not ol or ol[0] in seen:
+                continue
+            seen.add(ol[0])
+            ds = defs_of(fn, ol[0])
+            if not ds:
+                leaves.append(("param", None))
+            for kind, bi, si, d in ds:
+                if kind == "c":
+                    last = d["f"]["id"].rsplit("::", 1)[1] if d.get("f") else "?"
+                    if last in ("max", "min", "clone", "into", "from"):
+                        work += [op_local(a) for a in d["args"]]
+                        leaves += [("const", a[1].get("val")) for a in d["args"] if a[0] == "k"]
+                    else:
+                        leaves.append(("call", last))
+                elif d["k"] in ("use", "cast"):
+                    if d["o"][0] == "k":
+                        leaves.append(("const", d["o"][1].get("val")))
+                    else:
+                        o2 = op_local(d["o"])
+                        if o2 and o2[1]:
+                            work.append((o2[0], []))   # value half of a checked operation
+                        else:
+                            work.append(o2)
+                elif d["k"] == "bin":
+                    leaves.append(("bin", d["op"].replace("WithOverflow", "")))
+                else:
+                    leaves.append((d["k"], None))
+        bad = [l for l in leaves if not (l == ("const", 0) or l == ("bin", "Sub") or (l[0] == "call" and str(l[1]).endswith("_sub")))]
+        if bad:
+            rep.viol(rule, "truncate kept-count#%d" % k, P.where(fn, t["line"]),
+                     "the number of characters kept in front of the ellipsis can be %s — not (limit - ellipsis) or 0: with a limit shorter than the ellipsis the "
+                     "result is longer than both" % (bad[0],))
+        else:
+            rep.ok(rule, "truncate kept-count#%d" % k, P.where(fn, t["line"]), "take(n): n is limit - ellipsis or 0 on every path")
 
 
 # ---------------------------------------------------------------------------------------
